@@ -223,6 +223,17 @@ pub fn check_pos_opt(ctx: &mut Ctx, p: &Pos, b: &Board, mode: u8) {
         }
         canon.push(want);
     }
+    // what a player would write without disambiguation, for every pseudo-legal move (legal or
+    // not): ambiguous, illegal or fine - the parser must be sound on it
+    {
+        let mut seen: HashSet<String> = HashSet::new();
+        for &m in &pseudo {
+            let t = text::san_naive(p, m);
+            if seen.insert(t.clone()) {
+                check_text(ctx, p, b, &legal, &t);
+            }
+        }
+    }
     // parsing soundness on the canonical texts' neighbourhood and the short pawn captures
     if edits {
         for t in &canon {
@@ -292,9 +303,9 @@ pub fn run(run: &mut Run) {
     let thorough = run.thorough();
     // formatting + round trip everywhere
     let sel = if thorough {
-        Sel { m3: true, ray: Some(3), ep: Some(true), castle: Some(true), promo: Some(true), reach: Some(4), sanamb: Some((3, true)), pin2: Some(4), ..Default::default() }
+        Sel { m3: true, ray: Some(3), ep: Some(true), castle: Some(true), promo: Some(true), reach: Some(4), sanamb: Some((3, true)), pin2: Some(4), sanmany: true, ..Default::default() }
     } else {
-        Sel { m3: true, ray: Some(2), ep: Some(false), castle: Some(false), promo: Some(false), reach: Some(3), sanamb: Some((3, false)), m4_corner: Some(2), pin2: Some(3), ..Default::default() }
+        Sel { m3: true, ray: Some(2), ep: Some(false), castle: Some(false), promo: Some(false), reach: Some(3), sanamb: Some((3, false)), m4_corner: Some(2), pin2: Some(3), sanmany: true, ..Default::default() }
     };
     run_universes(run, &sel, DISAGREE, &check_pos);
     if thorough {
